@@ -629,9 +629,16 @@ def gen_case(seed, size):
     hrng = random.Random(seed * 31 + 7)
     if hook != "none" and hrng.random() < 0.45:
         names = []  # no pattern ever fires: every IR change of the run is made by the post-walk hook
+    elif hook in ("region_dce", "erase_marked") and hrng.random() < 0.3:
+        # only EraseDead, and (below) no "dead" op other than one whose single user only the hook removes: the first
+        # sweep fires nothing, the hook enables the pattern, the driver has to sweep again
+        names = ["EraseDead"]
     cfg["inert_patterns"] = not names
     # bias the op kinds towards the chosen patterns so that they find work
     kinds = [KIND_OF[n] for n in names] * 3 + list(KIND_OF.values()) + INERT + ["dead", "a", "a", "uu"]
+    if names == ["EraseDead"] and hook != "none":
+        kinds = [x for x in kinds if x != "dead"]
+        cfg["hook_enables_pattern"] = True
     if hook == "erase_marked":
         kinds += ["hd"] * 4
     if hook == "region_dce":
@@ -642,13 +649,17 @@ def gen_case(seed, size):
     ops = list(body.ops)
     for o in ops:
         o.detach()
-    if hook == "region_dce" and hrng.random() < 0.7:
+    if hook == "region_dce" and (hrng.random() < 0.7 or names == ["EraseDead"]):
         # work only region DCE can do: an unreachable block holding side-effecting ops, and an unused pure op
         ops.append(mk("x", (), 0, 0, [Region([Block([mk("x", (), 0, 0)]), Block([mk("x", (), 1, 0), mk("x", (), 0, 0)])])]))
         ops.append(mk("p", (), 1, 0, pure=True))
-    if hook == "erase_marked" and hrng.random() < 0.7:
+        d = mk("dead", (), 1, 0)   # becomes erasable by EraseDead only after the hook removed its pure user
+        ops += [d, mk("p", [d.results[0]], 1, 0, pure=True)]
+    if hook == "erase_marked" and (hrng.random() < 0.7 or names == ["EraseDead"]):
         ops.append(mk("x", (), 0, 0, [Region([Block([mk("hd", (), 1, 0)])])]))
         ops.append(mk("hd", (), 2, 0))
+        d = mk("dead", (), 1, 0)   # becomes erasable by EraseDead only after the hook removed its marked user
+        ops += [d, mk("hd", [d.results[0]], 1, 0)]
     module = ModuleOp(ops)
     return module, names, cfg, random.Random(seed * 7919 + 13)
 
